@@ -10,6 +10,7 @@ from glotaran.io import load_result
 from glotaran.io import save_result
 from glotaran.project.project_registry import ProjectRegistry
 from glotaran.project.result import Result
+from glotaran.utils import verif_trace as _vt
 
 
 class ProjectResultRegistry(ProjectRegistry):
@@ -86,6 +87,13 @@ class ProjectResultRegistry(ProjectRegistry):
         ValueError
             Raised if result does not exist.
         """
+        if _vt.ENABLED:
+            _asked = {
+                "reg": self._directory.as_posix(),
+                "name": name,
+                "latest": bool(latest),
+                "existing": sorted(p.name for p in self._directory.iterdir() if p.is_dir()),
+            }
         if re.match(self.result_pattern, name) is None:
             if latest is False:
                 warn(
@@ -100,8 +108,14 @@ class ProjectResultRegistry(ProjectRegistry):
             name = previous_result_paths[-1].stem
         path = self._directory / name
         if self.is_item(path):
+            if _vt.ENABLED:
+                _vt.emit(
+                    "latest_lookup", **_asked, ret=path.name, isdir=path == self._directory, err=""
+                )
             return path
 
+        if _vt.ENABLED:
+            _vt.emit("latest_lookup", **_asked, ret="", isdir=False, err="ValueError")
         raise ValueError(
             f"Result {name!r} does not exist. Known Results are: {list(self.items.keys())}"
         )
@@ -135,6 +149,17 @@ class ProjectResultRegistry(ProjectRegistry):
         result : Result
             The result to save.
         """
+        if _vt.ENABLED:
+            _existing = sorted(p.name for p in self._directory.iterdir() if p.is_dir())
         run_name = self.create_result_run_name(name)
         result_path = self.directory / run_name / "result.yml"
         save_result(result, result_path, format_name="yml")
+        if _vt.ENABLED:
+            _vt.emit(
+                "run_created",
+                reg=self._directory.as_posix(),
+                name=name,
+                chosen=run_name,
+                existing=_existing,
+                after=sorted(p.name for p in self._directory.iterdir() if p.is_dir()),
+            )
